@@ -247,8 +247,8 @@ func (c *Ctx) fetchHelpers(s *Slashing, state *types.Named) []*ssa.Function {
 // FetchHelperRules: C06.O5 rules.errors / C11.O4 -1 convention / C01.O9 key for the fetch helpers of one kind.
 // Returns the action global used, for cross-checks.
 func (c *Ctx) FetchHelperRules(prop string, s *Slashing, kind string) *ssa.Global {
-	rule := prop + ".O5 rules.errors"
-	ruleKey := prop + ".O9 key"
+	rule := "C06.O5 rules.errors"
+	ruleKey := homeProp(kind) + ".O9 key"
 	state := s.AttState
 	if kind == "prop" {
 		state = s.PropState
@@ -379,7 +379,7 @@ func (c *Ctx) FetchHelperRules(prop string, s *Slashing, kind string) *ssa.Globa
 			c.R.OK(rule, Fn(fn), c.P.FuncPos(fn), "nil error only after a successful decode of the fetched record, or below the 'not found' edge")
 		}
 		// -1 convention: stores into the state in this helper are exactly: -1 to every field, each only below the not-found edge
-		rule4 := prop + ".O4 none-is-minus-one"
+		rule4 := "C11.O4 none-is-minus-one"
 		st := state.Underlying().(*types.Struct)
 		got := map[string]bool{}
 		for _, fs := range c.stateFieldStores(s) {
@@ -433,7 +433,7 @@ func (c *Ctx) notFoundProducer(prop string, s *Slashing, msg string) {
 		return
 	}
 	c.memo["nfp:"+msg] = true
-	rule := prop + ".O5 rules.errors/store-not-found"
+	rule := "C06.O5 rules.errors/store-not-found"
 	n := 0
 	for _, fn := range WithClosures(s.StoreFetch) {
 		for _, b := range fn.Blocks {
